@@ -84,6 +84,7 @@ type parsNorm struct {
 	elem   map[types.Object]string // range value over a vector: "cnt(S[c1])"
 	drop   map[types.Object]bool   // site / state keys
 	depthC int
+	inl    int
 	err    error
 }
 
@@ -264,12 +265,33 @@ func isFloatConstInt(info *types.Info, e ast.Expr, out *int64) bool {
 
 func (pn *parsNorm) stmts(list []ast.Stmt) string {
 	var out []string
-	for _, s := range list {
+	for i, s := range list {
+		// `if C { continue }` followed by the rest  ==  `if !C { rest }`
+		if is, ok := s.(*ast.IfStmt); ok && is.Else == nil && is.Init == nil && len(is.Body.List) == 1 {
+			if br, ok := is.Body.List[0].(*ast.BranchStmt); ok && br.Tok == token.CONTINUE && !errGuard(pn.info, is.Cond) {
+				rest := pn.stmts(list[i+1:])
+				out = append(out, "if "+negKey(pn.condKey(is.Cond))+" { "+rest+" }")
+				return strings.Join(out, " ; ")
+			}
+		}
 		if t := pn.stmt(s); t != "" {
 			out = append(out, t)
 		}
 	}
 	return strings.Join(out, " ; ")
+}
+
+// negKey negates a normalised condition key.
+func negKey(k string) string {
+	switch {
+	case strings.HasPrefix(k, "!"):
+		return k[1:]
+	case strings.Contains(k, "==") && !strings.Contains(k, "&&") && !strings.Contains(k, "||"):
+		return strings.Replace(k, "==", "!=", 1)
+	case strings.Contains(k, "!=") && !strings.Contains(k, "&&") && !strings.Contains(k, "||"):
+		return strings.Replace(k, "!=", "==", 1)
+	}
+	return "!" + k
 }
 
 func (pn *parsNorm) stmt(s ast.Stmt) string {
@@ -334,11 +356,25 @@ func (pn *parsNorm) stmt(s ast.Stmt) string {
 		if errGuard(info, x.Cond) {
 			return ""
 		}
-		t := "if " + pn.condKey(x.Cond) + " { " + pn.stmts(x.Body.List) + " }"
-		if x.Else != nil {
-			t += " else { " + pn.stmt(x.Else.(ast.Stmt)) + " }"
+		// conjunctions are written as nested ifs: `if A && B {X}` == `if A { if B {X} }`
+		if x.Else == nil {
+			if be, ok := unparen(x.Cond).(*ast.BinaryExpr); ok && be.Op == token.LAND {
+				inner := &ast.IfStmt{Cond: be.Y, Body: x.Body}
+				outer := &ast.IfStmt{Cond: be.X, Body: &ast.BlockStmt{List: []ast.Stmt{inner}}}
+				return pn.stmt(outer)
+			}
 		}
-		return t
+		ck := pn.condKey(x.Cond)
+		thenS := pn.stmts(x.Body.List)
+		if x.Else == nil {
+			return "if " + ck + " { " + thenS + " }"
+		}
+		elseS := pn.stmt(x.Else.(ast.Stmt))
+		// canonical polarity: a negated or `!=` condition with an else has its branches swapped
+		if strings.HasPrefix(ck, "!") || (strings.Contains(ck, "!=") && !strings.Contains(ck, "&&") && !strings.Contains(ck, "||")) {
+			ck, thenS, elseS = negKey(ck), elseS, thenS
+		}
+		return "if " + ck + " { " + thenS + " } else { " + elseS + " }"
 	case *ast.IncDecStmt:
 		if k := pn.cntKey(x.X); k != "" {
 			return k + x.Tok.String()
@@ -434,6 +470,27 @@ func (pn *parsNorm) call(call *ast.CallExpr) string {
 			a = append(a, pn.node[identObj(info, x)])
 		}
 		return "recurse(" + strings.Join(a, ",") + ")"
+	}
+	// a small helper of the same package (not one of the compared functions): inline its body
+	if g := pn.c.FuncOfObj(fn); g != nil && g.Pkg == pn.fi.Pkg && fn.Name() != "computeParsimony" && fn.Name() != "randomlyResolveNodeStates" && !strings.HasPrefix(fn.Name(), "parsimony") && pn.inl < 2 {
+		ginfo := g.Pkg.TypesInfo
+		for i, a := range call.Args {
+			p := paramObj(ginfo, g.Decl, i)
+			if p == nil {
+				continue
+			}
+			if v := pn.vecKey(a); v != "" {
+				pn.vec[p] = v
+			} else if r, ok := pn.node[identObj(info, a)]; ok {
+				pn.node[p] = r
+			}
+		}
+		pn.inl++
+		saved := pn.fi
+		out := pn.stmts(g.Decl.Body.List)
+		pn.fi = saved
+		pn.inl--
+		return out
 	}
 	switch fn.Name() {
 	case "computeParsimony":
